@@ -504,3 +504,37 @@ func (w *World) evaluable(qs []Query) []Query {
 	}
 	return out
 }
+
+// IndexedEqualitySweep: for every indexed field and every stored object, the
+// equality search on the object's own value must return exactly the model's
+// set (finds any stale index entry, which a sampled sweep can miss).
+func (w *World) IndexedEqualitySweep() {
+	if w.failed() {
+		return
+	}
+	var paths []string
+	for p := range w.cfg.Fields {
+		if w.cfg.indexed(p) {
+			paths = append(paths, p)
+		}
+	}
+	sort.Strings(paths)
+	for _, p := range paths {
+		seen := map[string]bool{}
+		for _, u := range w.m.Live() {
+			v, ok := leaf(w.m.objs[u], p)
+			if !ok {
+				continue
+			}
+			k, _ := keyOf(v)
+			if seen[k.String()] {
+				continue
+			}
+			seen[k.String()] = true
+			w.SearchOne(Query{p, "=", v})
+			if w.failed() {
+				return
+			}
+		}
+	}
+}
